@@ -241,6 +241,7 @@ func (d *Discipline) onAcquire(e *Engine, st *State, p PtrV, key string, mode lo
 		st.assume(e.evalSpecBool(env, c.Expr))
 	}
 	st.labels["acq:"+key] = st.clone()
+	st.labels["acq:last"] = st.labels["acq:"+key]
 }
 
 func (d *Discipline) onRelease(e *Engine, st *State, p PtrV, key string, mode, held lockMode, pos token.Pos) {
